@@ -371,6 +371,223 @@ class Program:
         out = [k for k in self.all_classes() if k.is_subclass_of(c) and (not strict or k != c)]
         return out
 
+    # ---------------------------------------------------------------- constant folding of module-level tables
+    def module_consts(self, m: ModuleInfo) -> Dict[str, object]:
+        """Values of the module-level names that are built from constants: the top-level statements are folded
+        in order (assignments of constant expressions, `T.update(..)` / `T.add(..)` / `T |= ..` on such a name,
+        comprehensions and itertools.product over constant sequences, f-strings over the loop variables).
+        Nothing of the library is executed; a statement that is not of this kind is skipped and takes the names
+        it binds out of the table."""
+        cache = getattr(self, "_module_consts", None)
+        if cache is None:
+            cache = self._module_consts = {}
+        if m.name in cache:
+            return cache[m.name]
+        env: Dict[str, object] = {}
+        cache[m.name] = env
+
+        class NotConst(Exception):
+            pass
+
+        def ev(e, loc):
+            if isinstance(e, ast.Constant):
+                return e.value
+            if isinstance(e, ast.Name):
+                if e.id in loc:
+                    return loc[e.id]
+                if e.id in env:
+                    return env[e.id]
+                if e.id in m.imports:
+                    kind, obj = self.resolve_dotted(m, e.id)
+                    if kind == "const":
+                        mm, _val = obj
+                        other = self.module_consts(mm)
+                        nm = m.imports[e.id].rpartition(".")[2]
+                        if nm in other:
+                            return other[nm]
+                    if kind == "class":
+                        return obj
+                if e.id in m.classes:
+                    return m.classes[e.id]
+                raise NotConst(e.id)
+            if isinstance(e, ast.Attribute):
+                d = A.dotted(e)
+                if d:
+                    kind, obj = self.resolve_dotted(m, d)
+                    if kind == "const":
+                        mm, _val = obj
+                        other = self.module_consts(mm)
+                        if e.attr in other:
+                            return other[e.attr]
+                    if kind == "class":
+                        return obj
+                raise NotConst(A.unparse(e))
+            if isinstance(e, (ast.Tuple, ast.List, ast.Set)):
+                vals = []
+                for x in e.elts:
+                    if isinstance(x, ast.Starred):
+                        vals.extend(ev(x.value, loc))
+                    else:
+                        vals.append(ev(x, loc))
+                return tuple(vals) if isinstance(e, ast.Tuple) else (list(vals) if isinstance(e, ast.List) else set(vals))
+            if isinstance(e, ast.Dict):
+                out = {}
+                for k, v in zip(e.keys, e.values):
+                    if k is None:
+                        out.update(ev(v, loc))
+                    else:
+                        out[ev(k, loc)] = ev(v, loc)
+                return out
+            if isinstance(e, ast.JoinedStr):
+                parts = []
+                for x in e.values:
+                    if isinstance(x, ast.Constant):
+                        parts.append(str(x.value))
+                    elif isinstance(x, ast.FormattedValue) and x.format_spec is None and x.conversion in (-1, 115):
+                        parts.append(str(ev(x.value, loc)))
+                    else:
+                        raise NotConst("f-string")
+                return "".join(parts)
+            if isinstance(e, ast.BinOp) and isinstance(e.op, (ast.Add, ast.BitOr, ast.BitAnd, ast.Sub, ast.Mult)):
+                a, b = ev(e.left, loc), ev(e.right, loc)
+                try:
+                    if isinstance(e.op, ast.Add):
+                        return a + b
+                    if isinstance(e.op, ast.BitOr):
+                        return a | b
+                    if isinstance(e.op, ast.BitAnd):
+                        return a & b
+                    if isinstance(e.op, ast.Sub):
+                        return a - b
+                    if isinstance(a, int) and isinstance(b, int):
+                        return a * b
+                except Exception:
+                    pass
+                raise NotConst("binop")
+            if isinstance(e, (ast.ListComp, ast.SetComp, ast.GeneratorExp, ast.DictComp)):
+                res = []
+
+                def rec(gi, loc2):
+                    if len(res) > 5000:
+                        raise NotConst("too large")
+                    if gi == len(e.generators):
+                        if isinstance(e, ast.DictComp):
+                            res.append((ev(e.key, loc2), ev(e.value, loc2)))
+                        else:
+                            res.append(ev(e.elt, loc2))
+                        return
+                    g = e.generators[gi]
+                    for item in ev(g.iter, loc2):
+                        l3 = dict(loc2)
+                        bind(g.target, item, l3)
+                        if all(truth(c, l3) for c in g.ifs):
+                            rec(gi + 1, l3)
+
+                rec(0, dict(loc))
+                if isinstance(e, ast.DictComp):
+                    return dict(res)
+                return set(res) if isinstance(e, ast.SetComp) else list(res)
+            if isinstance(e, ast.Call) and not e.keywords:
+                fn = (A.dotted(e.func) or "").split(".")[-1]
+                args = [ev(a, loc) for a in e.args]
+                if fn in ("set", "frozenset"):
+                    return set(args[0]) if args else set()
+                if fn in ("tuple",):
+                    return tuple(args[0]) if args else ()
+                if fn in ("list", "sorted"):
+                    v = list(args[0]) if args else []
+                    return sorted(v) if fn == "sorted" else v
+                if fn in ("dict", "MappingProxyType", "OrderedDict") and len(args) <= 1:
+                    return dict(args[0]) if args else {}
+                if fn == "product":
+                    import itertools as _it
+
+                    return list(_it.product(*[list(a) for a in args]))
+                if fn == "chain":
+                    out2 = []
+                    for a in args:
+                        out2.extend(a)
+                    return out2
+                if fn == "str" and len(args) == 1 and isinstance(args[0], (int, str)):
+                    return str(args[0])
+                if fn == "format" and isinstance(e.func, ast.Attribute):
+                    base = ev(e.func.value, loc)
+                    if isinstance(base, str) and all(isinstance(a, (int, str)) for a in args):
+                        return base.format(*args)
+            raise NotConst(type(e).__name__)
+
+        def truth(c, loc):
+            if isinstance(c, ast.Compare) and len(c.ops) == 1:
+                a, b = ev(c.left, loc), ev(c.comparators[0], loc)
+                op = c.ops[0]
+                if isinstance(op, ast.Eq):
+                    return a == b
+                if isinstance(op, ast.NotEq):
+                    return a != b
+                if isinstance(op, ast.In):
+                    return a in b
+                if isinstance(op, ast.NotIn):
+                    return a not in b
+            raise NotConst("condition")
+
+        def bind(t, v, loc):
+            if isinstance(t, ast.Name):
+                loc[t.id] = v
+            elif isinstance(t, (ast.Tuple, ast.List)):
+                v = list(v)
+                if len(v) != len(t.elts):
+                    raise NotConst("unpack")
+                for a, b in zip(t.elts, v):
+                    bind(a, b, loc)
+            else:
+                raise NotConst("target")
+
+        import copy as _copy
+
+        def run(st, loc, depth=0):
+            if isinstance(st, ast.Assign) and len(st.targets) == 1 and isinstance(st.targets[0], ast.Name):
+                (loc if depth else env)[st.targets[0].id] = ev(st.value, loc)
+            elif isinstance(st, ast.AnnAssign) and isinstance(st.target, ast.Name) and st.value is not None:
+                (loc if depth else env)[st.target.id] = ev(st.value, loc)
+            elif isinstance(st, ast.AugAssign) and isinstance(st.target, ast.Name) and st.target.id in env and isinstance(st.op, (ast.BitOr, ast.Add)):
+                cur, v = _copy.copy(env[st.target.id]), ev(st.value, loc)
+                env[st.target.id] = (cur | v) if isinstance(st.op, ast.BitOr) else (cur + v)
+            elif isinstance(st, ast.Expr) and isinstance(st.value, ast.Call) and isinstance(st.value.func, ast.Attribute) and isinstance(st.value.func.value, ast.Name) and st.value.func.value.id in env and st.value.func.attr in ("update", "add", "extend", "append", "discard", "remove") and len(st.value.args) == 1 and not st.value.keywords:
+                nm = st.value.func.value.id
+                cur = _copy.copy(env[nm])
+                v = ev(st.value.args[0], loc)
+                getattr(cur, st.value.func.attr)(v)
+                env[nm] = cur
+            elif isinstance(st, ast.For) and not st.orelse and depth < 3:
+                n_iter = 0
+                for item in ev(st.iter, loc):
+                    n_iter += 1
+                    if n_iter > 5000:
+                        raise NotConst("too many iterations")
+                    l2 = dict(loc)
+                    bind(st.target, item, l2)
+                    for b in st.body:
+                        run(b, l2, depth + 1)
+            elif isinstance(st, ast.If) and depth < 3:
+                for b in (st.body if truth(st.test, loc) else st.orelse):
+                    run(b, loc, depth + 1)
+            elif isinstance(st, (ast.Pass,)) or (isinstance(st, ast.Expr) and isinstance(st.value, ast.Constant)):
+                pass
+            elif depth:
+                raise NotConst("statement")
+
+        for st in m.tree.body:
+            try:
+                run(st, {})
+            except (NotConst, Exception):
+                for n_ in ast.walk(st):
+                    if isinstance(n_, ast.Name) and isinstance(n_.ctx, ast.Store):
+                        env.pop(n_.id, None)
+                for c_ in ast.walk(st):
+                    if isinstance(c_, ast.Call) and isinstance(c_.func, ast.Attribute) and isinstance(c_.func.value, ast.Name):
+                        env.pop(c_.func.value.id, None)
+        return env
+
     def const_value(self, m: ModuleInfo, node: ast.AST, depth: int = 0):
         """Evaluate a module-level constant expression to a Python value
         (str/int/tuple/set/dict of those).  Raises AnalysisError if not constant."""
@@ -404,4 +621,10 @@ class Program:
                 for k, v in zip(node.keys, node.values)
                 if k is not None
             }
+        # a table that is built by folding module-level statements (comprehensions, product, later updates)
+        for nm_, val_ in m.constants.items():
+            if val_ is node:
+                folded = self.module_consts(m)
+                if nm_ in folded:
+                    return folded[nm_]
         raise AnalysisError(f"not a constant expression: {A.unparse(node)}")
